@@ -98,6 +98,7 @@ impl Setup {
         for (entry, cwd, conf) in [
             (Entry::Build, Cwd::Member, ConfSrc::Tauri),
             (Entry::Cli, Cwd::Member, ConfSrc::Flags),
+            (Entry::Cli, Cwd::Member, ConfSrc::Standalone),
         ] {
             v.push(Setup {
                 entry,
